@@ -311,7 +311,7 @@ pub fn witness(name: &str, hyps: &[F], extra: &F) -> Tri {
     let to = timeout_ms();
     if all.iter().all(sx::eval) {
         let gv = solver::formula_vars(extra);
-        let mut asserts = solver::slice(hyps, &gv);
+        let mut asserts = if gv.is_empty() { hyps.to_vec() } else { solver::slice(hyps, &gv) };
         asserts.push(extra.clone());
         let st = ctx(|c| c.solvers.check_pinned(name, &asserts, to, false, Some(&HashMap::new())));
         return match &st.answer {
